@@ -125,6 +125,10 @@ def main(argv=None) -> int:
 
         try:
             selftest = mutate.run_selftest(prop_id, prog)
+            if prop_id in props.PROPERTY_RULES and not os.environ.get("VERIF_NO_SWEEP"):
+                from . import sweep
+
+                selftest["sweep"] = sweep.run_sweep(prop_id, prog)
         except AnalysisError as err:
             errors.append(f"SELFTEST: {err}")
         except Exception as err:  # pragma: no cover
@@ -175,6 +179,12 @@ def main(argv=None) -> int:
         )
         for gap in selftest["gaps"]:
             print(f"SELFTEST-GAP property={prop_id} {gap}")
+        if "sweep" in selftest:
+            sw = selftest["sweep"]
+            print(
+                f"  sweep: {sw['mutants_analysed']} generic single-edit mutants of {len(sw['files'])} anchored file(s): "
+                f"{sw['flagged']} flagged, {sw['analysis_error']} stopped with an analysis error, {sw['silent']} silent"
+            )
 
     if not args.no_evidence:
         write_evidence(prop_id, args.tier, seed, prog, results, errors, violations, known_hits, selftest, timer, canaries)
